@@ -6,6 +6,7 @@ CONSTANTS
   EofWithData = TRUE
   ShapesA <- LocalShapes
   ShapesB <- AllShapes
+  DevDrainDeadline = FALSE
   DevCloseWriterFallback = FALSE
   Emit = FALSE
   Classes = {1, 2, 3, 4}
@@ -22,10 +23,12 @@ CONSTANTS
   DevSpin = FALSE
   DevNoUnblock = FALSE
   DevAliasFlush = FALSE
+  SockBatch = FALSE
+  DevNoInnerFlush = FALSE
   SockQueue = TRUE
   DevQueueRefs = TRUE
   DevDropOnClose = FALSE
 SPECIFICATION USpec
-INVARIANTS UTypeOK UDatagrams UComplete UCompleteAny UEncoded UFlushed UMutex UBuf
+INVARIANTS UTypeOK UDatagrams UComplete UCompleteAny UEncoded UFlushed UMutex UBuf UBatchFits
 PROPERTIES UDelivMonotone UEventuallyFlushed UTermination
 CHECK_DEADLOCK FALSE
